@@ -124,6 +124,7 @@ def _case(scn, mode, k, t, e, k2=None, rev=False):
         except Exception as ex:  # noqa
             exc = ex
         fs.hook = None
+        fs.revive()
         post = _view(fs)
         problems = []
         # reference success state (same scenario, no fault) -- only needed when the call returned normally under a fault
